@@ -1,26 +1,30 @@
 #!/venv/bin/python
-"""Print a markdown table of the seeded changes from seeded/*/meta.json and notes.md."""
+"""Print a markdown table of the seeded changes from seeded/MATRIX.json (tools/matrix.py) and each seed's notes.md."""
 import glob, json, os, re
 here = os.path.dirname(os.path.dirname(os.path.abspath(__file__)))
+M = json.load(open(os.path.join(here, "seeded", "MATRIX.json")))
 rows = []
 for m in sorted(glob.glob(os.path.join(here, "seeded", "*", "meta.json"))):
     d = json.load(open(m))
+    name = d["name"]
     notes = os.path.join(os.path.dirname(m), "notes.md")
     first = ""
     if os.path.exists(notes):
         for ln in open(notes):
             ln = ln.strip()
             if ln and not ln.startswith("#"):
-                first = re.sub(r"[`*|]", "", ln)[:110]
+                first = re.sub(r"[`*|]", "", ln)[:100]
                 break
-    rules = []
-    for p, c in d.get("checks", {}).items():
-        for k in c.get("new_violation_keys", []):
-            r = k.split("|")[0]
-            if r not in rules:
-                rules.append(r)
-    det = ", ".join(d.get("detected_by", [])) or ("- (harmless on HEAD)" if d.get("valid_on_head") is False else "-")
-    rows.append(f"| {d['name']} | {d['breaks_property']} | {first} | {det} | {', '.join(rules[:4])} |")
-print("| seed | breaks | change (first line of its notes) | detected by | rules that fired |")
+    fired = M.get(name, {}).get("fired", {})
+    own = d["breaks_property"]
+    det = [p for p, v in sorted(fired.items()) if v["rc"] == 1 and v["rules"]]
+    det = ([own] if own in det else []) + [p for p in det if p != own]
+    gaps = [p for p, v in sorted(fired.items()) if v["rc"] == 2]
+    rules = ", ".join(fired.get(own, {}).get("rules", [])[:4])
+    cell = ", ".join(det) or ("- (harmless on HEAD)" if d.get("valid_on_head") is False else "-")
+    if gaps:
+        cell += f" (gap: {', '.join(gaps)})"
+    rows.append(f"| {name} | {own} | {first} | {cell} | {rules} |")
+print("| seed | breaks | change (first line of its notes) | detected by (own property first) | own-property rules that fired |")
 print("|---|---|---|---|---|")
 print("\n".join(rows))
